@@ -16,6 +16,7 @@
 //     name spells the module's own source position: x-f<text>s<statement>),
 //   - what `type q<j>:t` resolves to (every loaded module defines typedef t whose units spell the
 //     same position).
+//
 // All three must denote the module that FindModule, the model (op registry) and - where it speaks -
 // the specification (op spec.registry) name for that statement's (name, revision-date).
 package main
